@@ -102,7 +102,8 @@ class P:
             b = self.sum_()
             op = {"=": "==", "<>": "!="}.get(v, v)
             return "(%s %s %s)" % (a, op, b)
-        raise Unsupported("SQL predicate: comparison expected after %s" % a)
+        # a bare integer column / expression used as a condition is "truthy": non-zero
+        return "(%s != 0int)" % a
 
     def sum_(self):
         l = self.term()
